@@ -201,6 +201,23 @@ def check_config(ctx: Ctx) -> None:
                    f"argparse clusters short options (`-pw 100`, `-ic`): `{sh}` (takes_value={a.takes_value}) must be declared in "
                    f"the sentinel parser with the same arity, otherwise a tracked flag clustered behind it is not seen as explicit",
                    where(pa, a.node))
+    # both parsers read option strings the same way: constructor settings that change how argv is tokenised / matched
+    # (abbreviations, prefix characters, @file expansion) must agree, else an option the main parser accepts is invisible
+    # to the sentinel parser and a flag given on the command line is not recorded as explicit
+    PARSING_KW = ("allow_abbrev", "prefix_chars", "fromfile_prefix_chars", "exit_on_error", "argument_default")
+    DEFAULTS = {"allow_abbrev": "True", "prefix_chars": "'-'", "fromfile_prefix_chars": "None", "exit_on_error": "True", "argument_default": "None"}
+
+    def ctor_kw(pm) -> dict[str, str]:
+        d = dict(DEFAULTS)
+        for k in pm.ctor.keywords:
+            if k.arg in PARSING_KW:
+                d[k.arg] = norm(k.value)
+        return d
+    mk, sk = ctor_kw(main_pm), ctor_kw(sent_pm)
+    diff = {k: (mk[k], sk[k]) for k in ("allow_abbrev", "prefix_chars", "fromfile_prefix_chars") if mk[k] != sk[k]}
+    ctx.ob("R-CONFIG-K3", f"{pa.qual} :: both parsers match option strings alike", not diff,
+           "the sentinel parser must recognise every spelling the main parser accepts (abbreviated long options included); "
+           f"constructor settings differ (main, sentinel): {diff}", where(pa, sent_pm.ctor))
     # both parsers see the same argv
     mp = main_pm.parse_calls
     sp = sent_pm.parse_calls
